@@ -238,6 +238,18 @@ func checkProperty(prop, tier, repo, verif string, seed int, t0 time.Time) int {
 	if v, err := strconv.Atoi(os.Getenv("VERIF_TIMEOUT")); err == nil && v > 0 && prop != "C19" {
 		timeout = v // must-fail corpus runs: a smaller budget is enough to see an obligation fail
 	}
+	vcs := contractVCs(eng, prop)
+	if len(vcs) == 0 {
+		return fail("no contract clause is tagged with " + prop)
+	}
+	if prop == "C02" || prop == "C04" {
+		runLeafStandin(eng, prop, verif)
+	}
+	return finishCheck(eng, prop, tier, repo, verif, seed, t0, evPath, vcs, timeout, nil, nil, false)
+}
+
+// contractVCs generates the obligations of every function that has a clause tagged with the property
+func contractVCs(eng *Engine, prop string) []*VC {
 	modes := []struct {
 		name string
 		m    *Mode
@@ -271,13 +283,7 @@ func checkProperty(prop, tier, repo, verif string, seed int, t0 time.Time) int {
 		}
 		fnames = append(fnames, shortType(fc.Key))
 	}
-	if len(vcs) == 0 {
-		return fail("no contract clause is tagged with " + prop)
-	}
-	if prop == "C02" || prop == "C04" {
-		runLeafStandin(eng, prop, verif)
-	}
-	return finishCheck(eng, prop, tier, repo, verif, seed, t0, evPath, vcs, timeout, nil, nil, false)
+	return vcs
 }
 
 // finishCheck discharges the obligations of the given VCs and reports: known findings, violations (with replays),
